@@ -595,21 +595,25 @@ def i_SDIV(i, fmap):
     fmap[pc] = fmap[pc] + i.length
     # signed copies: fmap(r) may be the register object shared by the whole module
     op1, op2 = fmap(i.n).signed(), fmap(i.m).signed()
-    if op2._is_cst and op2.value == 0:
-        # no trap in AArch64: a division by zero writes zero
-        fmap[i.d] = cst(0, op2.size)
-    else:
-        fmap[i.d] = op1 / op2
+    try:
+        res = op1 / op2
+    except ZeroDivisionError:
+        # the divisor folds to the constant 0 (possibly only while the quotient
+        # is simplified); no trap in AArch64: a division by zero writes zero
+        res = cst(0, op2.size)
+    fmap[i.d] = res
 
 
 def i_UDIV(i, fmap):
     fmap[pc] = fmap[pc] + i.length
     op1, op2 = fmap(i.n).unsigned(), fmap(i.m).unsigned()
-    if op2._is_cst and op2.value == 0:
-        # no trap in AArch64: a division by zero writes zero
-        fmap[i.d] = cst(0, op2.size)
-    else:
-        fmap[i.d] = op1 / op2
+    try:
+        res = op1 / op2
+    except ZeroDivisionError:
+        # the divisor folds to the constant 0 (possibly only while the quotient
+        # is simplified); no trap in AArch64: a division by zero writes zero
+        res = cst(0, op2.size)
+    fmap[i.d] = res
 
 
 def i_SMADDL(i, fmap):
